@@ -84,8 +84,18 @@ type toolSpec struct {
 	Out      string      `json:"out,omitempty"`
 	OutStyle []string    `json:"out_style,omitempty"`
 	Extras   []extraSpec `json:"extras,omitempty"`
+	Ann      *annSpec    `json:"ann,omitempty"` // WithToolAnnotations
 	Before   int         `json:"before,omitempty"`
 	OutFirst bool        `json:"out_first,omitempty"` // WithOutputStruct before everything else
+}
+
+// annSpec: the tool annotations (title and hints).
+type annSpec struct {
+	Title       string `json:"title,omitempty"`
+	ReadOnly    *bool  `json:"read_only,omitempty"`
+	Destructive *bool  `json:"destructive,omitempty"`
+	Idempotent  *bool  `json:"idempotent,omitempty"`
+	OpenWorld   *bool  `json:"open_world,omitempty"`
 }
 
 func styleOpts(names []string) []mcp.SchemaOption {
@@ -172,6 +182,10 @@ func buildTool(s toolSpec) (tool *mcp.Tool, failure string) {
 	if s.Desc != "" {
 		opts = append(opts, mcp.WithDescription(s.Desc))
 	}
+	if s.Ann != nil {
+		opts = append(opts, mcp.WithToolAnnotations(&mcp.ToolAnnotations{Title: s.Ann.Title, ReadOnlyHint: s.Ann.ReadOnly, DestructiveHint: s.Ann.Destructive,
+			IdempotentHint: s.Ann.Idempotent, OpenWorldHint: s.Ann.OpenWorld}))
+	}
 	var outOpt mcp.ToolOption
 	if s.Out != "" {
 		o, ok := buildType(s.Out)
@@ -206,6 +220,7 @@ type builtJSON struct {
 	Failure string          `json:"failure,omitempty"`
 	In      json.RawMessage `json:"in,omitempty"`
 	Out     json.RawMessage `json:"out,omitempty"`
+	Whole   json.RawMessage `json:"whole,omitempty"` // the whole descriptor as the server prints it
 }
 
 func snapshot(t *mcp.Tool) builtJSON {
@@ -218,6 +233,9 @@ func snapshot(t *mcp.Tool) builtJSON {
 		if b.Out, err = json.Marshal(t.OutputSchema); err != nil {
 			b.Failure = "marshal output schema: " + err.Error()
 		}
+	}
+	if b.Whole, err = json.Marshal(t); err != nil {
+		b.Failure = "marshal tool: " + err.Error()
 	}
 	return b
 }
